@@ -1,8 +1,4 @@
-mod asm;
-mod core;
-mod ring;
-
-use crate::core::*;
+use mc::core::*;
 
 fn usage() -> ! {
     eprintln!("usage: mc <ID> [--tier quick|thorough] [--replay <file>]");
@@ -53,10 +49,86 @@ fn main() {
         })
     });
     let code = match (id.as_str(), art) {
-        ("C15", None) => asm::run(tier),
-        ("C15", Some(a)) => asm::replay(&a),
-        ("C14", None) => ring::run(tier),
-        ("C14", Some(a)) => ring::replay(&a),
+        #[cfg(feature = "m_asm")]
+        ("C15", None) => mc::asm::run(tier),
+        #[cfg(feature = "m_asm")]
+        ("C15", Some(a)) => mc::asm::replay(&a),
+        #[cfg(feature = "m_ring")]
+        ("C14", None) => mc::ring::run(tier),
+        #[cfg(feature = "m_ring")]
+        ("C14", Some(a)) => mc::ring::replay(&a),
+        #[cfg(feature = "m_tcp2")]
+        ("C01", None) => mc::tcp2::run_c01(tier),
+        #[cfg(feature = "m_tcp2")]
+        ("C01", Some(a)) => mc::tcp2::replay_c01(&a),
+        #[cfg(feature = "m_tcp2")]
+        ("C02", None) => mc::tcp2::run_c02(tier),
+        #[cfg(feature = "m_tcp2")]
+        ("C02", Some(a)) => mc::tcp2::replay_c02(&a),
+        #[cfg(feature = "m_tcp1")]
+        ("C04", None) => mc::tcp1::run_c04(tier),
+        #[cfg(feature = "m_tcp1")]
+        ("C04", Some(a)) => mc::tcp1::replay_c04(&a),
+        #[cfg(feature = "m_tcp1")]
+        ("C17", None) => mc::tcp1::run_c17(tier),
+        #[cfg(feature = "m_tcp1")]
+        ("C17", Some(a)) => mc::tcp1::replay_c17(&a),
+        #[cfg(feature = "m_tcpsend")]
+        ("C05", None) => mc::tcpsend::run(tier),
+        #[cfg(feature = "m_tcpsend")]
+        ("C05", Some(a)) => mc::tcpsend::replay(&a),
+        #[cfg(feature = "m_wire_rt")]
+        ("C06", None) => mc::wire_rt::run(tier),
+        #[cfg(feature = "m_wire_rt")]
+        ("C06", Some(a)) => mc::wire_rt::replay(&a),
+        #[cfg(feature = "m_wire_np")]
+        ("C07", None) => mc::wire_np::run(tier),
+        #[cfg(feature = "m_wire_np")]
+        ("C07", Some(a)) => mc::wire_np::replay(&a),
+        #[cfg(feature = "m_cksum")]
+        ("C08", None) => mc::cksum::run(tier),
+        #[cfg(feature = "m_cksum")]
+        ("C08", Some(a)) => mc::cksum::replay(&a),
+        #[cfg(feature = "m_frames")]
+        ("C03", None) => mc::frames::run(tier),
+        #[cfg(feature = "m_frames")]
+        ("C03", Some(a)) => mc::frames::replay(&a),
+        #[cfg(feature = "m_dgram")]
+        ("C09", None) => mc::dgram::run(tier),
+        #[cfg(feature = "m_dgram")]
+        ("C09", Some(a)) => mc::dgram::replay(&a),
+        #[cfg(feature = "m_egress")]
+        ("C10", None) => mc::egress::run(tier),
+        #[cfg(feature = "m_egress")]
+        ("C10", Some(a)) => mc::egress::replay(&a),
+        #[cfg(feature = "m_addr")]
+        ("C11", None) => mc::addr::run(tier),
+        #[cfg(feature = "m_addr")]
+        ("C11", Some(a)) => mc::addr::replay(&a),
+        #[cfg(feature = "m_frag4")]
+        ("C12", None) => mc::frag4::run(tier),
+        #[cfg(feature = "m_frag4")]
+        ("C12", Some(a)) => mc::frag4::replay(&a),
+        #[cfg(feature = "m_pollat")]
+        ("C13", None) => mc::pollat::run(tier),
+        #[cfg(feature = "m_pollat")]
+        ("C13", Some(a)) => mc::pollat::replay(&a),
+        #[cfg(feature = "m_neigh")]
+        ("C16", None) => mc::neigh::run(tier),
+        #[cfg(feature = "m_neigh")]
+        ("C16", Some(a)) => mc::neigh::replay(&a),
+        #[cfg(feature = "m_dhcp")]
+        ("C18", None) => mc::dhcp::run(tier),
+        #[cfg(feature = "m_dhcp")]
+        ("C18", Some(a)) => mc::dhcp::replay(&a),
+        #[cfg(feature = "m_dns")]
+        ("C19", None) => mc::dns::run(tier),
+        #[cfg(feature = "m_dns")]
+        ("C19", Some(a)) => mc::dns::replay(&a),
+        #[cfg(feature = "m_lowpan")]
+        ("C20", None) => mc::lowpan::run(tier),
+        #[cfg(feature = "m_lowpan")]
+        ("C20", Some(a)) => mc::lowpan::replay(&a),
         _ => {
             eprintln!("unknown property {}", id);
             2
